@@ -150,7 +150,7 @@ def protocol(ctx, rep, P):
             if role == "write":
                 # chunking
                 mk = [(bb, i, t) for bb in reg for i, t in bb.calls() if callee_name(t).endswith("VecDeque::<T, A>::make_contiguous")]
-                ch = [(bb, i, t) for bb in reg for i, t in bb.calls() if re.search(r"<impl \[T\]>::chunks_exact_mut$", callee_name(t))]
+                ch = [(bb, i, t) for bb in reg for i, t in bb.calls() if re.search(r"<impl \[T\]>::chunks_exact(_mut)?$", callee_name(t))]
                 good = len(mk) == 1 and len(ch) == 1
                 if good:
                     src = slice_with_captures(F, ch[0][0], ch[0][2]["a"][0])
